@@ -77,11 +77,12 @@ def frobCoeffC1 : List Fq := Gen.FROBENIUS_COEFF_FQ2_C1.map Fq.ofMont
 def frobeniusMap (a : Fq2) (power : Nat) : Fq2 :=
   ⟨a.c0, a.c1 * (frobCoeffC1.getD (power % 2) 0)⟩
 
+instance : Add Fq2 := ⟨add⟩
+instance : Sub Fq2 := ⟨sub⟩
+instance : Mul Fq2 := ⟨mul⟩
+instance : Neg Fq2 := ⟨neg⟩
+
 instance : FieldOps Fq2 where
-  add := add
-  sub := sub
-  mul := mul
-  neg := neg
   sq := square
   dbl := double
   inv := inverse
@@ -206,11 +207,12 @@ def frobeniusMap (a : Fq6) (power : Nat) : Fq6 :=
    a.c1.frobeniusMap power * (frobCoeffC1.getD (power % 6) 0),
    a.c2.frobeniusMap power * (frobCoeffC2.getD (power % 6) 0)⟩
 
+instance : Add Fq6 := ⟨add⟩
+instance : Sub Fq6 := ⟨sub⟩
+instance : Mul Fq6 := ⟨mul⟩
+instance : Neg Fq6 := ⟨neg⟩
+
 instance : FieldOps Fq6 where
-  add := add
-  sub := sub
-  mul := mul
-  neg := neg
   sq := square
   dbl := double
   inv := inverse
@@ -284,11 +286,12 @@ def frobeniusMap (a : Fq12) (power : Nat) : Fq12 :=
   let k := frobCoeffC1.getD (power % 12) 0
   ⟨c0, ⟨c1.c0 * k, c1.c1 * k, c1.c2 * k⟩⟩
 
+instance : Add Fq12 := ⟨add⟩
+instance : Sub Fq12 := ⟨sub⟩
+instance : Mul Fq12 := ⟨mul⟩
+instance : Neg Fq12 := ⟨neg⟩
+
 instance : FieldOps Fq12 where
-  add := add
-  sub := sub
-  mul := mul
-  neg := neg
   sq := square
   dbl := double
   inv := inverse
